@@ -615,6 +615,48 @@ func c11(c *core.Ctx) {
 							}
 						})
 					}
+					// the same without a cell (`f := x.fld; if f == nil { f = Default }` with f not captured): the loaded
+					// value is only compared with nil, or merged (φ) along an edge on which it was found non-nil
+					if !viaCell {
+						if li, isI := lv.(ssa.Instruction); isI && lv.Referrers() != nil && li.Parent() != in.Parent() || isI && lv.Referrers() != nil && !core.GuardedBy(in, nonNil) {
+							all, nPhi := true, 0
+							for _, r := range *lv.Referrers() {
+								switch rr := r.(type) {
+								case *ssa.BinOp:
+									if !(rr.Op == token.EQL || rr.Op == token.NEQ) || !(core.IsNilConst(rr.X) || core.IsNilConst(rr.Y)) {
+										all = false
+									}
+								case *ssa.Phi:
+									for i, e := range rr.Edges {
+										if e != lv {
+											continue
+										}
+										nPhi++
+										pred := rr.Block().Preds[i]
+										okEdge := false
+										if iff, isIf := pred.Instrs[len(pred.Instrs)-1].(*ssa.If); isIf {
+											for si, sb := range pred.Succs {
+												if sb == rr.Block() && nonNil(core.CondFact(iff.Cond, si == 0)) {
+													okEdge = true
+												}
+											}
+										}
+										if !okEdge && core.GuardedBy(pred.Instrs[len(pred.Instrs)-1], nonNil) {
+											okEdge = true
+										}
+										if !okEdge {
+											all = false
+										}
+									}
+								default:
+									all = false
+								}
+							}
+							if all && nPhi > 0 {
+								viaCell = true
+							}
+						}
+					}
 					if viaCell {
 						c.Ok(key, in.Pos(), "the field's value reaches the call only along the edge on which it was found non-nil (a default replaces it otherwise)")
 						continue
